@@ -352,8 +352,14 @@ pub fn replay(args: &Args) {
             "ip-opt" => ipb[21] ^= 0x10,                        // inside the options: the header checksum covers them
             "ip-hdr" => ipb[8] ^= 0x10,                         // TTL bit: header checksum no longer verifies
             "l4" => {
-                let i = ipb.len() - 1;
-                ipb[i] ^= 0x01;                                 // last payload byte
+                // last payload byte; for a group query the response-time field instead (the last byte belongs to the group
+                // address: flipping it would turn a general query into one for a group nobody joined, which is silent anyway)
+                let i = match pclass {
+                    "igmp-query" => hl + 1,
+                    "mld-query" => hl + 5,
+                    _ => ipb.len() - 1,
+                };
+                ipb[i] ^= 0x01;
             }
             "udp0" => {
                 ipb[hl + 6] = 0;
